@@ -253,10 +253,11 @@ let read_jcontext () =
   let a = next_int () in let b = next_int () in let c = next_int () in let d = next_int () in
   let n = next_int () in
   { jc_id = z_of_int a; jc_description = z_of_int b; jc_interface = z_of_int c; jc_parser = z_of_int d; jc_rules = repeat_read n read_jrule }
+let read_jfield () = let id = read_fid () in let pos = next_int () in let v = next_buf () in { jf_id = id; jf_val = v; jf_pos = z_of_int pos }
 let read_jpdesc () =
   let d = dir_of (next ()) in
   let n = next_int () in
-  let fs = repeat_read n (fun () -> let id = read_fid () in let pos = next_int () in let v = next_buf () in { jf_id = id; jf_val = v; jf_pos = z_of_int pos }) in
+  let fs = repeat_read n read_jfield in
   let pl = next_buf () in let raw = next_buf () in
   { jp_dir = d; jp_fields = fs; jp_payload = pl; jp_raw = raw }
 
@@ -333,6 +334,62 @@ let run_bytes op =
     show (function None -> "-1" | Some r -> string_of_int (index_of r rules 0)) (bmatch_schc_loop rules s)
   | _ -> "BADOP " ^ op
 
+(* ---- layer H: programs of Buffer operations on a heap of mutable objects (BufferHeap.v) -------------------
+   input : H prog <k> <k buffer literals> <n> <n operations>
+   Operands are HANDLES: indices into the list of objects the caller holds -- the k initial ones, then every object a call
+   returned that the caller did not hold yet, in order (temporaries of the model's heap have no handle).
+   output: one group per step, separated by " ; ":  <outcome> @ <state of every object the caller holds after the step>
+           outcome = R<handle> | L<handle,handle,..> | I<hex> | B<0/1> | Y<hex bytes> | E<exception> | DIVERGE
+           (a handle equal to the number of handles before the step, or above, designates a new object) *)
+let run_heap op =
+  match op with
+  | "prog" ->
+    let k = next_int () in
+    let h0 = repeat_read k next_buf in
+    let n = next_int () in
+    let known = ref (List.init k (fun i -> nat_of_int i)) in       (* handle -> model reference *)
+    let heap = ref h0 in
+    let r () = let i = next_int () in if i < List.length !known then List.nth !known i else nat_of_int (List.length !heap + 7) in   (* a handle the model has not handed out: a dangling reference (Unmodelled) *)
+    let oz () = opt_z (next ()) in
+    let handle x =
+      let rec find i = function [] -> (known := !known @ [x]; i) | y :: t -> if y = x then i else find (i + 1) t in
+      find 0 !known in
+    let groups = repeat_read n (fun () ->
+      let o = match next () with
+      | "new" -> let c = bytes_of_hex (next ()) in let l = zi (next ()) in let sd = side_of_string (next ()) in HNew (c, l, sd)
+      | "copy" -> HCopy (r ())
+      | "shift" -> let x = r () in let s = zi (next ()) in let ip = bool_of (next ()) in HShift (x, s, ip)
+      | "pad" -> let x = r () in let sd = side_of_string (next ()) in let ip = bool_of (next ()) in HPad (x, sd, ip)
+      | "value" -> HValue (r ())
+      | "getitem" -> let x = r () in let s = oz () in let e = oz () in HGetitem (x, s, e)
+      | "getint" -> let x = r () in let i = zi (next ()) in HGetint (x, i)
+      | "add" -> let a = r () in let b = r () in HAdd (a, b)
+      | "and" -> let a = r () in let b = r () in HAnd (a, b)
+      | "or" -> let a = r () in let b = r () in HOr (a, b)
+      | "xor" -> let a = r () in let b = r () in HXor (a, b)
+      | "invert" -> HInvert (r ())
+      | "setitem" -> let x = r () in let s = oz () in let e = oz () in let v = r () in HSetitem (x, s, e, v)
+      | "setint" -> let x = r () in let i = zi (next ()) in let v = r () in HSetint (x, i, v)
+      | "chunks" -> let x = r () in let n = zi (next ()) in let p = bool_of (next ()) in HChunks (x, n, p)
+      | "eq" -> let a = r () in let b = r () in HEq (a, b)
+      | "hash" -> HHash (r ())
+      | "iter" -> HIter (r ())
+      | "len" -> HLen (r ())
+      | s -> failwith ("hop " ^ s) in
+      let (out, h') = hstep o !heap in
+      heap := h';
+      let shown = match out with
+        | Ok (ORef x) -> "R" ^ string_of_int (handle x)
+        | Ok (ORefs l) -> "L" ^ String.concat "," (List.map (fun x -> string_of_int (handle x)) l)
+        | Ok (OInt z) -> "I" ^ hex_of_z z
+        | Ok (OBool b) -> "B" ^ string_of_bool01 b
+        | Ok (OBytes l) -> "Y" ^ hex_of_bytes l
+        | Exc e -> "E" ^ exn_name e
+        | Diverge -> "DIVERGE" in
+      shown ^ " @ " ^ String.concat " " (List.map (fun x -> string_of_buf (List.nth h' (int_of_nat x))) !known)) in
+    "OK " ^ String.concat " ; " groups
+  | _ -> "BADOP " ^ op
+
 let run_json op =
   match op with
   | "buffer" -> rt (fun b -> Ok (buf_to_json b)) buf_from_json (next_buf ())
@@ -343,6 +400,9 @@ let run_json op =
   | "rule" -> rt rule_to_json rule_from_json (read_jrule ())
   | "context" -> rt context_to_json context_from_json (read_jcontext ())
   | "pdesc" -> rt (fun p -> Ok (pdesc_to_json p)) pdesc_from_json (read_jpdesc ())
+  | "field" -> rt (fun f -> Ok (field_to_json f)) field_from_json (read_jfield ())
+  | "header" -> let t = next_int () in let len = next_int () in let n = next_int () in
+    rt (fun h -> Ok (header_to_json h)) header_from_json { jh_id = z_of_int t; jh_length = z_of_int len; jh_fields = repeat_read n read_jfield }
   | _ -> "BADOP " ^ op
 
 let () =
@@ -356,6 +416,8 @@ let () =
         | "B" :: op :: args -> (try run_buffer op args with Failure m -> "FAIL " ^ m | Stack_overflow -> "FAIL stack")
         | "S" :: op :: args -> (toks := Array.of_list args; cur := 0;
                                 try run_schc op with Failure m -> "FAIL " ^ m | Stack_overflow -> "FAIL stack" | Invalid_argument m -> "FAIL " ^ m)
+        | "H" :: op :: args -> (toks := Array.of_list args; cur := 0;
+                                try run_heap op with Failure m -> "FAIL " ^ m | Stack_overflow -> "FAIL stack" | Invalid_argument m -> "FAIL " ^ m)
         | "Y" :: op :: args -> (toks := Array.of_list args; cur := 0;
                                 try run_bytes op with Failure m -> "FAIL " ^ m | Stack_overflow -> "FAIL stack" | Invalid_argument m -> "FAIL " ^ m)
         | "J" :: op :: args -> (toks := Array.of_list args; cur := 0;
